@@ -68,8 +68,16 @@ def rule_no_delivery_on_failure(ctx):
     ctx.require(len(dec) == 1, "EVENT: decode site not found")
     dn, dc = dec[0]
     # no codec -> return
-    nocodec = [n for n in nodes if n.kind == "test" and norm.atoms(n.ast, True, res) == [("truth", "self._payload_codec", None, False)]]
-    ok = len(nocodec) == 1 and not any(g.path_exists(m, D, avoid=lambda x: x.kind == "for") for m, lab in nocodec[0].succ if lab and lab[0] == "T")
+    # the test of the codec, in either polarity: the "no codec" side is its T side for `not codec`, its F side for `codec`
+    nocodec = []
+    for n in nodes:
+        if n.kind == "test":
+            at = norm.atoms(n.ast, True, res)
+            if at == [("truth", "self._payload_codec", None, False)]:
+                nocodec.append((n, "T"))
+            elif at == [("truth", "self._payload_codec", None, True)]:
+                nocodec.append((n, "F"))
+    ok = len(nocodec) == 1 and not any(g.path_exists(m, D, avoid=lambda x: x.kind == "for") for m, lab in nocodec[0][0].succ if lab and lab[0] == nocodec[0][1])
     ctx.ob("EVENT: encrypted payload without a codec is not delivered", ok, "handler reachable on the no-codec path", om.fn.loc())
     hs = [m for m, lab in dn.succ if lab and lab[0] == "exc"]
     ok = bool(hs) and all(not g.path_exists(h, D, avoid=lambda x: x.kind == "for") for h in hs)
@@ -382,40 +390,72 @@ def rule_keyring(ctx):
     kr = ctx.program.cls("autobahn.wamp.cryptobox.KeyRing")
     enc, dec = kr.methods["encode"], kr.methods["decode"]
     ctx.analysed(enc, dec)
-    pl = [s for s in walk_no_defs(enc.node) if isinstance(s, ast.Assign) and norm.text(s.targets[0]) == "payload" and isinstance(s.value, ast.Dict)]
-    ok = len(pl) == 1 and {k.value: norm.text(v) for k, v in zip(pl[0].value.keys, pl[0].value.values)} == {"uri": "uri", "args": "args", "kwargs": "kwargs"}
-    ctx.ob("encode seals {uri, args, kwargs}", ok, "sealed dict changed", enc.loc())
-    seal = [c for c in calls_in(enc.node) if norm.text(c.func) == "box.encrypt"]
-    ctx.ob("encode encrypts the serialized dict with the box selected for the URI and a random nonce", len(seal) == 1 and norm.text(seal[0].args[0]) == "payload_ser" and
-           any(norm.text(c.func) == "self._get_box" and [norm.text(a) for a in c.args] == ["is_originating", "uri"] for c in calls_in(enc.node)) and
-           any(isinstance(s, ast.Assign) and norm.text(s.targets[0]) == "nonce" and norm.text(s.value) == "random(Box.NONCE_SIZE)" for s in walk_no_defs(enc.node)), "changed", enc.loc())
-    rets = [s for s in walk_no_defs(enc.node) if isinstance(s, ast.Return) and s.value is not None and not (isinstance(s.value, ast.Constant))]
-    ok = len(rets) == 1 and isinstance(rets[0].value, ast.Call) and call_name(rets[0].value) == "EncodedPayload" and norm.text(rets[0].value.args[0]) == "payload_bytes" and \
-        [norm.text(a).strip("'\"") for a in rets[0].value.args[1:3]] == ["cryptobox", "json"]
-    ctx.ob("encode returns EncodedPayload(ciphertext, 'cryptobox', 'json')", ok, "changed", enc.loc())
-    # as a term: decode returns (sealed['uri'], sealed['args'], sealed['kwargs']) of the decrypted, JSON-decoded dict
-    from ..core.terms import TermEval, show, subterms
-    td = TermEval(ctx.program, dec, inline=lambda c, f: None).run()
-    rd = [o for o in td.outcomes if o.kind == "return"]
-    okd, whyd = False, "decode return changed"
-    if len(rd) == 1 and rd[0].term[0] == "list" and len(rd[0].term) == 4:
-        parts = rd[0].term[1:]
-        bases = set()
-        names = []
-        for pt in parts:
-            if pt[0] == "m" and pt[2] == "get" and pt[3] and pt[3][0][0] == "c" and (len(pt[3]) == 1 or pt[3][1] == ("c", None)):
-                names.append(pt[3][0][1])
-                bases.add(pt[1])
-            elif pt[0] == "idx" and pt[2][0] == "c":
-                names.append(pt[2][1])
-                bases.add(pt[1])
-        sealed = next(iter(bases)) if len(bases) == 1 else None
-        okd = names == ["uri", "args", "kwargs"] and sealed is not None and any(x[0] == "m" and x[2] == "decrypt" for x in subterms(sealed))
-        whyd = f"returns {[show(x)[:60] for x in parts]}"
-    ctx.ob("decode returns the three sealed keys (uri, args, kwargs) of the decrypted payload", okd, whyd, dec.loc())
-    op = [c for c in calls_in(dec.node) if norm.text(c.func) == "box.decrypt"]
-    ctx.ob("decode opens the ciphertext with the box selected for the envelope URI", len(op) == 1 and norm.text(op[0].args[0]) == "encoded_payload.payload" and
-           any(norm.text(c.func) == "self._get_box" and [norm.text(a) for a in c.args] == ["is_originating", "uri"] for c in calls_in(dec.node)), "changed", dec.loc())
+    # encode() and decode() evaluated (sa.core.tiny) against a model of the box and of the JSON codec: what is sealed is exactly {uri, args, kwargs} of the
+    # call, under the box selected for (direction, URI) and a fresh nonce, and comes back labelled cryptobox / json; decode opens the envelope's
+    # payload with the box selected the same way and returns the three sealed fields in that order
+    from ..core.tiny import Tiny, Sym, OpenSym, Buf
+    probs_e, probs_d = [], []
+    try:
+        U, A, K = "com.topic", [Sym("arg")], {"k": Sym("kwarg")}
+        sealed_in, boxes_for, made = [], [], []
+        box = Sym("box", methods={"encrypt": lambda pt, nonce=None, encoder=None: (sealed_in.append((pt, nonce)), Sym("ciphertext", of=pt))[1],
+                                  "decrypt": lambda ct, encoder=None: Sym("plaintext", of=ct, methods={"decode": lambda *a_: Sym("plaintext-text", of=ct)})})
+
+        def default(f_, a_, k_=None):
+            if f_ == "self._get_box":
+                boxes_for.append(list(a_))
+                return box
+            if f_ in ("_json_dumps", "_dumps", "json.dumps"):
+                d_ = a_[0]
+                return Sym("json-text", of=d_, methods={"encode": lambda *x_: Sym("json-octets", of=d_)})
+            if f_ == "random":
+                return Sym("nonce", size=a_[0] if a_ else None)
+            if f_ == "EncodedPayload":
+                b_ = dict(zip(("payload", "enc_algo", "enc_serializer", "enc_key"), a_))
+                b_.update(k_ or {})
+                made.append(b_)
+                return Sym("encoded-payload", **b_)
+            if f_ in ("_json_loads", "_loads", "json.loads"):
+                return {"uri": Sym("sealed-uri"), "args": Sym("sealed-args"), "kwargs": Sym("sealed-kwargs"), "other": Sym("noise"), "_src": a_[0] if a_ else None}
+            if f_ == "isinstance":
+                return True
+            if f_ == "bytes" and a_:
+                return a_[0]
+            return Sym(f"<{f_}>")
+        pe = enc.params()
+        t = Tiny({"self": Sym("keyring"), pe[1]: True, pe[2]: U, pe[3]: A, pe[4]: K, "RawEncoder": Sym("RawEncoder"), "Box": Sym("Box", NONCE_SIZE=24)}, default_call=default, model_types=True, opaque_globals=True, model_strings=True)
+        r = t.run([x for x in enc.node.body if not (isinstance(x, ast.Expr) and isinstance(x.value, ast.Constant))])
+        if r[0] != "return" or len(made) != 1 or len(sealed_in) != 1:
+            probs_e.append(f"encode: {r[0]} {str(r[1])[:40]}, {len(sealed_in)} encryption(s), {len(made)} EncodedPayload(s)")
+        else:
+            pt, nonce = sealed_in[0]
+            d_ = pt.attrs.get("of") if isinstance(pt, Sym) else None
+            if not (isinstance(d_, dict) and set(d_) == {"uri", "args", "kwargs"} and d_["uri"] == U and d_["args"] is A and d_["kwargs"] is K):
+                probs_e.append(f"encode seals {d_!r}, expected exactly uri / args / kwargs of the call")
+            if not (isinstance(nonce, Sym) and nonce.name == "nonce"):
+                probs_e.append(f"encode encrypts with nonce {nonce!r}, expected a freshly drawn one")
+            if boxes_for != [[True, U]]:
+                probs_e.append(f"encode selects the box for {boxes_for}, expected (is_originating, uri) of the call")
+            m_ = made[0]
+            ct = m_.get("payload")
+            if not (isinstance(ct, Sym) and ct.name == "ciphertext" and ct.attrs.get("of") is pt) or m_.get("enc_algo") != "cryptobox" or m_.get("enc_serializer") != "json" or m_.get("enc_key") is not None:
+                probs_e.append(f"encode returns EncodedPayload({ct!r}, {m_.get('enc_algo')!r}, {m_.get('enc_serializer')!r}, enc_key={m_.get('enc_key')!r})")
+        del boxes_for[:]
+        pd_ = dec.params()
+        env_payload = Sym("ciphertext-octets")
+        t = Tiny({"self": Sym("keyring"), pd_[1]: False, pd_[2]: U, pd_[3]: Sym("envelope", payload=env_payload, enc_algo="cryptobox", enc_serializer="json", enc_key=None),
+                  "RawEncoder": Sym("RawEncoder"), "Box": Sym("Box", NONCE_SIZE=24)},
+                 default_call=default, model_types=True, opaque_globals=True, model_strings=True)
+        r = t.run([x for x in dec.node.body if not (isinstance(x, ast.Expr) and isinstance(x.value, ast.Constant))])
+        got = list(r[1]) if r[0] == "return" and isinstance(r[1], (list, tuple)) else None
+        if got is None or [getattr(x, "name", None) for x in got] != ["sealed-uri", "sealed-args", "sealed-kwargs"]:
+            probs_d.append(f"decode returns {r[1] if r[0] == 'return' else r!r}, expected (uri, args, kwargs) of the sealed dict")
+        if boxes_for != [[False, U]]:
+            probs_d.append(f"decode selects the box for {boxes_for}, expected (is_originating, uri) of the call")
+    except AnalysisError as e:
+        raise AnalysisError(f"[C20.4-keyring-envelope] KeyRing.encode / decode outside the modelled subset: {e}")
+    ctx.ob("encode seals exactly {uri, args, kwargs} under the box of (direction, URI) with a fresh nonce and labels the result cryptobox / json [1 cell]", not probs_e, "; ".join(probs_e[:2]), enc.loc())
+    ctx.ob("decode opens the payload with the box of (direction, URI) and returns the sealed uri, args, kwargs in that order [1 cell]", not probs_d, "; ".join(probs_d[:2]), dec.loc())
     nb = [s for s in walk_no_defs(dec.node) if isinstance(s, ast.If) and norm.atoms(s.test, True) == [("truth", "box", None, False)]]
     ctx.ob("decode without a key raises", len(nb) == 1 and any(isinstance(x, ast.Raise) for x in nb[0].body), "changed", dec.loc())
 
